@@ -313,7 +313,7 @@ func init() {
 		Level:       "exploration",
 		Rule:        "case = one round: 2..32 goroutines, each owning its inputs (rebuilt from a seed), run one of 12 operation kinds (6 readers incl. teletext streams with different national subsets and X/28-M/29 packets, 5 writers - TTML also with its indentation option -, transformation sequences over Add/Fragment/Unfragment/Order/Merge/Optimize/ForceDuration/linear correction/RemoveStyling incl. padding a list and then stripping and editing the padded list), released together by a barrier in randomised order under GOMAXPROCS 2, 4 or 16. The monitor binary is built with -race: any race report fails the run (witness = the report). Every concurrent result digest must equal the digest of the same operation run alone beforehand; the package state digest (verif hook) and the data-segment digests (every package-level variable of the library as linked into the monitor: byte for byte, and followed through slices, strings, pointers, structs and arrays with the binary's debug information) must be unchanged at the end. A round counts only if at least two operations really overlapped (begin/end ticks); the evidence lists the kind x kind pairs observed overlapping (distinct_features). distinct_nontrivial = distinct rounds with overlap.",
 		Assumptions: []string{"the race detector reports only accesses that happened in these rounds", "the injectable clock is set once before the rounds (it is the documented exception)"},
-		Cases:       func(tier string) int64 { return tierN(tier, 240, 5000) },
+		Cases:       func(tier string) int64 { return tierN(tier, 240, 20000) },
 		Workers:     4,
 		Setup: func(c *fw.Ctx) error {
 			c20Digest = stateDigest()
